@@ -369,11 +369,26 @@ def r3_stacks(run):
                 eff = {'tail': 'head', 'head': 'tail'}.get(kind, kind) if rev else kind
                 run.check(eff == 'tail', 'prepare_middleware_ws: %s is tail-inserted (top-down order)' % name, g, c)
     # the request pair carries (process_request, process_response) in that order
+    # roles by def-use: a local is the request / response method of the component
+    # iff every binding of it comes from get_bound_method(component, '<role>[_async]')
+    def role_of(name):
+        roles_ = set()
+        for a in walk_self(f.node):
+            if isinstance(a, (ast.Assign, ast.AnnAssign)) and a.value is not None:
+                tg = a.targets if isinstance(a, ast.Assign) else [a.target]
+                if not any(isinstance(t, ast.Name) and t.id == name for t in tg):
+                    continue
+                lits = {x.value for x in ast.walk(a.value) if isinstance(x, ast.Constant) and isinstance(x.value, str) and x.value.startswith('process_')}
+                roles_.update(l[:-len('_async')] if l.endswith('_async') else l for l in lits)
+        return roles_
+
     for c in walk_self(f.node):
         if isinstance(c, ast.Call) and method_call(c, 'append') and c.args and isinstance(c.args[0], ast.Tuple):
-            names = [short(e) for e in c.args[0].elts]
-            run.check(names == ['process_request', 'process_response'],
-                      'dependent-mode pair is (process_request, process_response)', f, c)
+            elts = c.args[0].elts
+            got = [role_of(e.id) if isinstance(e, ast.Name) else set() for e in elts]
+            run.check(got == [{'process_request'}, {'process_response'}],
+                      'dependent-mode pair is (request method, response method) of the same component', f, c,
+                      witness=['roles: %s' % got])
 
 
 # ---------------------------------------------------------------------------
